@@ -1,4 +1,4 @@
-CONSTANTS N = 4 MaxOps = 4 OpKinds = {"blank", "comment", "split", "join", "eol", "case", "trail", "fixed", "tcomment", "flush"}
+CONSTANTS N = 4 MaxOps = 4 OpKinds = {"blank", "comment", "split", "join", "eol", "case", "trail", "fixed", "tcomment", "flush", "icomment"}
 SPECIFICATION Spec
 VIEW View
 INVARIANT Monotone
